@@ -26,4 +26,22 @@ PROPS = {
             {"name": "regression", "run": "TestRegression", "kind": "plain"},
         ],
     },
+    "C02": {
+        "pkg": "c02",
+        "rule": ("rapid draws a list function (quick: 14 representative types, thorough: all 83 Updater types), a store "
+                 "(remote feature fed by reply / notify on the wire, local feature through UpdateData / SetData) and a history of "
+                 "1..6 updates over the identifier domain {0..3} in every filter shape; after each update DataCopy is compared "
+                 "with the reference fold (multiset of item JSON), identifiers must be unique, leading numeric keys ordered, and the "
+                 "same update is applied a second time (idempotence). The sweep applies every shape once to every type on both stores. "
+                 "Non-trivial: the history contains a filtered update that changes a non-empty list. Distinct by (function, store, "
+                 "sequence of shape/hit-or-miss)."),
+        "assumptions": ["reference fold written from the SPINE cmdOption table (harness/refmodel/fold.go) is the oracle",
+                        "inputs every caller respects: unique identifiers per update, all-or-no key fields, full updates in identifier order, "
+                        "full-key scalar selectors matching at most one item, partial+selector carries exactly one identifier-less item",
+                        "selector/elements fields are located by the XSD JSON naming convention, not by the eebus tags under test"],
+        "runs": [
+            {"name": "fold", "run": "TestFold", "kind": "rapid", "checks": {Q: 8000, T: 480000}, "shards": {Q: 4, T: 16}},
+            {"name": "sweep", "run": "TestSweep", "kind": "plain", "shards": {Q: 2, T: 16}, "args": {Q: ["-rapid.checks=3"], T: ["-rapid.checks=40"]}},
+        ],
+    },
 }
